@@ -222,7 +222,9 @@ func checkC18(c c18Case) (Outcome, error) {
 		}(i, tk)
 	}
 	close(start)
-	wg.Wait()
+	if hung, dump := waitOrDeadlock(&wg); hung {
+		return out, violation("deadlock", "%d concurrent invocations never return: every goroutine inside the library is parked for good\n%s", len(c.Tasks), dump)
+	}
 	for i, tk := range c.Tasks {
 		if !equalResults(conc[i], solo[i]) {
 			return out, violation("concurrent-differs", "task %+v: alone %v, among %d concurrent invocations %v (panic: %v)", tk, solo[i].v, len(c.Tasks), conc[i].v, conc[i].err)
@@ -387,4 +389,38 @@ func TestC18Huge(t *testing.T) {
 		}
 	}
 	enumerate(t, "C18", cases, checkC18Many)
+}
+
+// TestC18Crowd: "any number of goroutines": 32 and 48 simultaneous invocations of ONE test on inputs beyond 2^20 bits (the DFT then
+// transforms 2^21 points; about 150 MB of working memory per call), i.e. more callers than any fixed-size pool, semaphore or
+// per-processor scratch table inside the library has slots.  Every test with its default parameter, both entry points mixed;
+// results bit-identical to the solitary ones, and the crowd must come back (waitOrDeadlock).
+func TestC18Crowd(t *testing.T) {
+	part, parts := envInt("VERIF_PART", 0), envInt("VERIF_PARTS", 1)
+	var cases []c18Case
+	k := 0
+	for _, td := range tests {
+		if td.Key == "lincomp" { // quadratic: 1.1 million bits x 48 callers is out of budget; covered by the generated cases up to 10^6 bits
+			continue
+		}
+		for _, crowd := range []int{32, 48} {
+			k++
+			if k%parts != part {
+				continue
+			}
+			nbits := 1<<20 + 8*(1+3*td.Idx) // N = 2^21 for the DFT
+			if crowd == 48 {
+				nbits = 1<<20 + 1<<19 + 64
+			}
+			c := c18Case{Procs: 16, Inputs: []gen.Seq{
+				{Family: "uniform", N: nbits, Seed: uint64(1000 + td.Idx)},
+				{Family: "uniform", N: nbits, Seed: uint64(2000 + td.Idx)},
+			}}
+			for i := 0; i < crowd; i++ {
+				c.Tasks = append(c.Tasks, c18Task{Test: td.Idx, Param: td.Default, Input: i % 2, Bytes: i%4 < 2})
+			}
+			cases = append(cases, c)
+		}
+	}
+	enumerate(t, "C18", cases, checkC18)
 }
